@@ -576,6 +576,144 @@ pub fn run_case(out: &mut Out, header: &str) {
             }
         }
     }
+    // edits that change WHICH cells exist (create inside the used range / in a new row / beyond the used range, remove,
+    // make blank) and a style edit that interns a new xf: oracle = the reloaded workbook shows what the edited one shows;
+    // tie = the kept coordinates (and the row records made by get_cell_mut) against the model's createSheet /
+    // deleteSheet / editSheet + normS / ensureRow
+    for class in ["create-gap", "create-new-row", "create-extend", "delete", "blank", "new-style"] {
+        let seed: u64 = header.bytes().chain(class.bytes()).fold(17u64, |h, b| h.wrapping_mul(149).wrapping_add(b as u64));
+        let mut rng = Rng::new(seed);
+        let mut edited = books[0].clone();
+        let si = rng.below(edited.get_sheet_count() as u64) as usize;
+        let (spec_before, rows_before, target) = {
+            let ws = edited.get_sheet(&si).unwrap();
+            let (hc, hr) = ws.get_highest_column_and_row();
+            let kept: Vec<(u32, u32)> = sorted_cells(ws).iter().filter(|c| is_kept(c) && style_is_empty(c.get_style())).map(|c| (*c.get_coordinate().get_col_num(), *c.get_coordinate().get_row_num())).collect();
+            let target: Option<(u32, u32)> = match class {
+                "create-gap" => {
+                    let mut gaps = vec![];
+                    for r in 1..=hr.min(12) {
+                        for c in 1..=hc.min(12) {
+                            if ws.get_cell((c, r)).is_none() {
+                                gaps.push((c, r));
+                            }
+                        }
+                    }
+                    if gaps.is_empty() { None } else { Some(gaps[rng.below(gaps.len() as u64) as usize]) }
+                }
+                "create-new-row" => Some((rng.range(1, hc.max(1) as u64) as u32, hr + 1 + rng.below(3) as u32)),
+                "create-extend" => Some((hc + 1 + rng.below(3) as u32, hr + 1 + rng.below(3) as u32)),
+                _ => if kept.is_empty() { None } else { Some(kept[rng.below(kept.len() as u64) as usize]) },
+            };
+            let mut rows: Vec<u32> = ws.get_row_dimensions().iter().map(|r| *r.get_row_num()).collect();
+            rows.sort();
+            (spec_cells(ws), rows, target)
+        };
+        let (c, r) = match target {
+            Some(t) => t,
+            None => {
+                out.count(&format!("edit.{}.no-target", class));
+                continue;
+            }
+        };
+        let did = guard(|| {
+            let ws = edited.get_sheet_mut(&si).unwrap();
+            match class {
+                "delete" => {
+                    ws.remove_cell((c, r));
+                }
+                "blank" => {
+                    ws.get_cell_mut((c, r)).set_blank();
+                }
+                "new-style" => {
+                    ws.get_cell_mut((c, r)).get_style_mut().get_font_mut().set_name("C04 Edit Font").set_size(13.25).set_bold(true);
+                }
+                _ => {
+                    ws.get_cell_mut((c, r)).set_value_string("CREATED<&>");
+                }
+            }
+        });
+        if did.is_err() {
+            out.oracle_fail(Fail::new("edit-panicked").with("op", header).with("class", class));
+            continue;
+        }
+        out.count(&format!("edit.{}", class));
+        if class.starts_with("create") {
+            out.count(if rows_before.contains(&r) { "edit.create.row-record-existed" } else { "edit.create.row-record-made" });
+        }
+        let mut rows_after: Vec<u32> = edited.get_sheet(&si).unwrap().get_row_dimensions().iter().map(|r| *r.get_row_num()).collect();
+        rows_after.sort();
+        let back = match guard(|| wb::save_bytes(&edited, light)) {
+            Ok(Ok(b)) => reload(&b),
+            _ => Err("save failed".into()),
+        };
+        let nb = match back {
+            Ok(nb) => nb,
+            Err(e) => {
+                out.oracle_fail(Fail::new("save-failed").with("op", header).with("generation", format!("edit {}: {}", class, e)));
+                continue;
+            }
+        };
+        let want = guard(|| full_view(&edited)).unwrap_or_default();
+        let got = guard(|| full_view(&nb)).unwrap_or_default();
+        if want == got {
+            out.oracle_ok();
+        } else {
+            out.oracle_fail(Fail::new("edit-not-local").with("op", header).with("cell", format!("{} {}!{}.{}", class, si, c, r)).with("detail", first_diff(&want, &got)));
+        }
+        let kept_after = kept_cells(nb.get_sheet(&si).unwrap());
+        let join = |v: &Vec<u32>| if v.is_empty() { "~".to_string() } else { v.iter().map(|x| x.to_string()).collect::<Vec<_>>().join(",") };
+        match class {
+            "new-style" => {
+                // every other cell of the workbook reads the style it reads without the edit (by the Debug rendering of the
+                // style objects, xf indices not being part of them)
+                let styles = |b: &Spreadsheet| -> Vec<String> {
+                    let mut v = vec![];
+                    for i in 0..b.get_sheet_count() {
+                        for cell in sorted_cells(b.get_sheet(&i).unwrap()) {
+                            let co = (*cell.get_coordinate().get_col_num(), *cell.get_coordinate().get_row_num());
+                            if !(i == si && co == (c, r)) && is_kept(cell) {
+                                v.push(format!("{}!{}.{} {:?}", i, co.0, co.1, cell.get_style()));
+                            }
+                        }
+                    }
+                    v
+                };
+                // "without the edit" = the next generation of the same workbook (the Debug rendering sees below the
+                // getter level: a style equal to the default one is read back as no style object at all)
+                let (sa, sb) = (styles(if books.len() > 1 { &books[1] } else { &books[0] }), styles(&nb));
+                if sa == sb {
+                    out.oracle_ok();
+                } else {
+                    let d = sa.iter().zip(sb.iter()).find(|(a, b)| a != b).map(|(a, b)| first_diff(a, b)).unwrap_or_else(|| format!("{} vs {} cells", sa.len(), sb.len()));
+                    out.oracle_fail(Fail::new("edit-not-local").with("op", header).with("cell", format!("new style on {}!{}.{} changed another cell's style", si, c, r)).with("detail", d));
+                }
+            }
+            "delete" | "blank" => {
+                let line = format!("c04 edit {} {} {}.{}", class, spec_before, c, r);
+                out.begin(&line);
+                out.end(&line, &kept_after, true);
+                if rows_after != rows_before {
+                    out.oracle_fail(Fail::new("edit-not-local").with("op", header).with("cell", format!("{} changed the row records", class)));
+                }
+            }
+            _ => {
+                let n = sorted_cells(books[0].get_sheet(&si).unwrap())
+                    .iter()
+                    .filter(|x| !x.get_cell_value().is_empty() || style_is_empty(x.get_style()))
+                    .filter(|x| (*x.get_coordinate().get_row_num(), *x.get_coordinate().get_col_num()) < (r, c))
+                    .count();
+                let line = format!("c04 edit create {} {}.{} {} {}", spec_before, c, r, n, join(&rows_before));
+                out.begin(&line);
+                out.end(&line, &format!("{} {}", kept_after, join(&rows_after)), true);
+                // the record of the new cell's row is read back, with default attributes
+                match nb.get_sheet(&si).unwrap().get_row_dimension(&r) {
+                    Some(rd) if rows_before.contains(&r) || (!*rd.get_hidden() && !*rd.get_custom_height()) => out.oracle_ok(),
+                    _ => out.oracle_fail(Fail::new("edit-not-local").with("op", header).with("cell", format!("row record of the created cell {}!{}.{} missing or not default", si, c, r))),
+                }
+            }
+        }
+    }
     // a FORMAT edit on a loaded workbook whose custom number-format ids have a gap (three or more custom formats, the
     // cell that carried a middle one removed before the save that the load reads): giving one cell a number format the
     // workbook does not contain yet must leave every other cell's format alone
